@@ -3132,15 +3132,31 @@ class _Simu(_IObserver, _params.Updatable, ABC):
 
         is1d = values.ndim == 1
 
+        # Element values come with one row per element, nodal values with one row per node or as
+        # a flat dof vector (Nn * dof_n,). The leading dimension decides first: deciding on the
+        # size alone mistakes e.g. a (Ne, 3) stress for nodal values as soon as Ne * 3 % Nn == 0.
+        rows = values.shape[0]
+        if not is1d and rows == Nn and rows != Ne:
+            atNodes, atElems = True, False
+        elif not is1d and rows == Ne and rows != Nn:
+            atNodes, atElems = False, True
+        elif is1d and rows == Ne and rows % Nn != 0:
+            atNodes, atElems = False, True
+        elif is1d and rows != Ne and rows % Nn == 0:
+            atNodes, atElems = True, False
+        else:
+            # still ambiguous (Nn == Ne, or a flat vector whose size is Ne and a multiple of Nn)
+            atNodes, atElems = values.size % Nn == 0, values.size % Ne == 0
+
         if nodeValues:
             shape = -1 if is1d else (Nn, -1)
-            if values.size % Nn == 0:
+            if atNodes:
                 # values stored at nodes
                 if is1d:
                     return values.ravel()
                 else:
                     return values.reshape(Nn, -1)
-            elif values.size % Ne == 0:
+            elif atElems:
                 # values stored at elements
                 values_e = values.reshape(Ne, -1)
                 # get node values from element values
@@ -3148,9 +3164,9 @@ class _Simu(_IObserver, _params.Updatable, ABC):
                 return values_n.reshape(shape)
         else:
             shape = -1 if is1d else (Ne, -1)
-            if values.size % Ne == 0:
+            if atElems:
                 return values.reshape(shape)
-            elif values.size % Nn == 0:
+            elif atNodes:
                 # get values stored at nodes (Nn, i)
                 values_n = values.reshape(Nn, -1)
                 # average over each element's nodes, group by group (element
